@@ -18,8 +18,10 @@ META = {
         "unwrap_or(self.bg_color) / unwrap_or(self.fg_color) and removes INVERT; rgb_value goes through color_to_rgb(color, "
         "palette) and prints #RRGGBB; ANSI_NAMES is in from_ansi index order; (balance) a tag-level abstract interpretation of "
         "all literal template fragments along every structured path (sequence / branch / loop) shows balanced svg / style / rect / "
-        "text / tspan tags and attribute quotes; the height uses styled_lines.len(). Does NOT decide line splitting, CR handling, "
-        "width computation, nor XML validity of characters (excluded by the property)."),
+        "text / tspan tags and attribute quotes; the height uses styled_lines.len(); (text) every non-empty fragment of every line "
+        "reaches the foreground span writer, and the sheet and the lines are computed after the invert pre-pass; (lines) split_lines "
+        "cuts each run at every LF, drops only a CR directly before it, keeps style and order, and keeps an unterminated last "
+        "line. Does NOT decide width computation nor XML validity of characters (excluded by the property)."),
 }
 
 MANIFEST = {
@@ -46,7 +48,8 @@ def run(ctx):
     rep.guarded("names", V, lambda: rule_names(facts, rep))
     rep.guarded("balance", V, lambda: rule_balance(facts, rep))
     rep.guarded("text", V + "Term::render_svg", lambda: rule_text(facts, rep))
-    for r, n in (("taint", 8), ("pairing", 9), ("classes", 11), ("invert", 4), ("names", 6), ("balance", 4), ("text", 5)):
+    rep.guarded("lines", V + "split_lines", lambda: rule_lines(facts, rep))
+    for r, n in (("taint", 8), ("pairing", 9), ("classes", 11), ("invert", 4), ("names", 6), ("balance", 4), ("text", 5), ("lines", 7)):
         rep.floor(r, n)
 
 
@@ -375,6 +378,75 @@ def rule_text(facts, rep):
     rep.check(ok, "text", r["path"], "sheet-and-lines-computed-after-the-invert-pass",
               "color_styles(..) and split_lines(..) must see the post-invert runs: a sheet built before the swap defines classes the "
               "inverted spans do not use", loc(r))
+
+
+def rule_lines(facts, rep):
+    """split_lines: every run is cut at each LF, a CR directly before the LF is dropped, nothing else is dropped, pieces keep
+    their run's style and their order, and an unterminated last line is kept."""
+    b = facts.body("anstyle_svg", V + "split_lines")
+    rep.fn(b["path"])
+    fl = [l for l in (hir.for_loop(x) for x in hir.walk(b["hir"]) if x.get("k") == "match" and x.get("src") == "ForLoopDesugar") if l]
+    ok = len(fl) == 1
+    style = nxt = None
+    if ok:
+        pat, it, body = fl[0]
+        it = hir.simp(it)
+        ok = hir.is_call(it, "Iterator::map") and hir.is_call(hir.simp(it["args"][0]), "iter") and hir.is_local(hir.simp(it["args"][0])["args"][0], "styled")
+        clo = hir.simp(it["args"][1]) if ok else {}
+        if ok and clo.get("k") == "closure":
+            t = hir.simp(clo["body"])
+            ok = t.get("k") == "tuple" and len(t["es"]) == 2 and hir.is_call(hir.simp(t["es"][1]), "as_str")
+        if pat.get("k") == "ptuple":
+            style, nxt = pat["pats"][0].get("name"), pat["pats"][1].get("name")
+    rep.check(ok and style and nxt, "lines", b["path"], "walks-the-runs-in-order", "for (style, text) in styled.iter().map(|(s, t)| (*s, t.as_str()))", loc(b))
+    if not (ok and style and nxt):
+        return
+    wl = [hir.while_loop(x) for x in hir.walk(body) if x.get("k") == "loop" and x.get("src") == "While"]
+    okc = False
+    cur = rem = None
+    if len(wl) == 1:
+        c = hir.simp(wl[0][0])
+        if c.get("k") == "letexpr" and hir.is_call(hir.simp(c["init"]), "split_once"):
+            so = hir.simp(c["init"])
+            okc = hir.is_local(so["args"][0], nxt) and hir.lit_val(so["args"][1]) == 10
+            tp = c["pat"]["pats"][0] if c["pat"].get("k") == "pts" else {}
+            if tp.get("k") == "ptuple":
+                cur, rem = tp["pats"][0].get("name"), tp["pats"][1].get("name")
+    rep.check(okc and cur and rem, "lines", b["path"], "cuts-at-every-LF", "while let Some((current, remaining)) = next.split_once('\\n')", loc(b))
+    st = [hir.simp(x) for x in hir.stmts_of(wl[0][1])] if len(wl) == 1 else []
+    ok_cr = ok_push = ok_line = ok_new = ok_next = False
+    if len(st) == 5:
+        l0 = st[0]
+        if l0.get("k") == "let" and l0["pat"].get("name") == cur:
+            i = hir.simp(l0["init"])
+            ok_cr = (hir.is_call(i, "Option::<T>::unwrap_or") and hir.is_call(hir.simp(i["args"][0]), "strip_suffix")
+                     and hir.is_local(hir.simp(i["args"][0])["args"][0], cur) and hir.lit_val(hir.simp(i["args"][0])["args"][1]) == 13
+                     and hir.is_local(i["args"][1], cur))
+        p1 = st[1]
+        if hir.is_call(p1, "alloc::vec::Vec::<T, A>::push") and hir.is_local(p1["args"][0], "current_line"):
+            t = hir.simp(p1["args"][1])
+            ok_push = t.get("k") == "tuple" and [hir.local_name(x) for x in t["es"]] == [style, cur]
+        p2 = st[2]
+        ok_line = hir.is_call(p2, "alloc::vec::Vec::<T, A>::push") and hir.is_local(p2["args"][0], "lines") and hir.is_local(p2["args"][1], "current_line")
+        ok_new = st[3].get("k") == "assign" and hir.is_local(st[3]["l"], "current_line") and hir.is_call(hir.simp(st[3]["r"]), "alloc::vec::Vec::<T>::new")
+        ok_next = st[4].get("k") == "assign" and hir.is_local(st[4]["l"], nxt) and hir.is_local(st[4]["r"], rem)
+    rep.check(ok_cr, "lines", b["path"], "drops-only-a-CR-before-the-LF", "current.strip_suffix('\\r').unwrap_or(current)", loc(b))
+    rep.check(ok_push and ok_line and ok_new, "lines", b["path"], "piece-then-line-then-fresh-line", "the piece goes to the current line with its run's style, the line is closed, a new one starts", loc(b))
+    rep.check(ok_next, "lines", b["path"], "continues-with-the-remainder", "", loc(b))
+    seq = [hir.simp(x) for x in hir.stmts_of(body)]
+    tail = seq[-1] if seq else {}
+    ok_tail = hir.is_call(tail, "alloc::vec::Vec::<T, A>::push") and hir.is_local(tail["args"][0], "current_line") and \
+        hir.simp(tail["args"][1]).get("k") == "tuple" and [hir.local_name(x) for x in hir.simp(tail["args"][1])["es"]] == [style, nxt]
+    rep.check(ok_tail, "lines", b["path"], "rest-of-the-run-stays-on-the-current-line", "", loc(b))
+    top = [hir.simp(x) for x in hir.stmts_of(b["hir"])]
+    fin = [x for x in top if x.get("k") == "if"]
+    ok_fin = False
+    if len(fin) == 1:
+        c = hir.simp(fin[0]["c"])
+        body2 = [hir.simp(x) for x in hir.stmts_of(fin[0]["t"])]
+        ok_fin = (c.get("k") == "un" and c["op"] == "Not" and hir.is_call(hir.simp(c["e"]), "is_empty") and hir.is_local(hir.simp(c["e"])["args"][0], "current_line")
+                  and len(body2) == 1 and hir.is_call(body2[0], "alloc::vec::Vec::<T, A>::push") and hir.is_local(body2[0]["args"][0], "lines") and hir.is_local(body2[0]["args"][1], "current_line"))
+    rep.check(ok_fin and hir.is_local(top[-1], "lines"), "lines", b["path"], "unterminated-last-line-kept", "", loc(b))
 
 
 # ---- tag balance -----------------------------------------------------------------------------
